@@ -65,6 +65,10 @@ func main() {
 			} else {
 				target = sc.Lookup(rest)
 			}
+		case "type":
+			if o, isT := sc.Lookup(rest).(*types.TypeName); isT {
+				target = o
+			}
 		case "field":
 			tf := strings.SplitN(rest, ".", 2)
 			if o, isT := sc.Lookup(tf[0]).(*types.TypeName); isT {
